@@ -80,7 +80,7 @@ for k, t in [("C01", "U = pair count, exact P = permutation tail"), ("C02", ""),
     pass
 
 META["C06"] = dict(
-    level_text="Theorems (Lean): the rational PMFs sum to 1 (binomial theorem, Vandermonde), CDF is the partial sum (monotone, 0 below / 1 from the top of the support), mean and variance are the first two moments, support is where the PMF is non-zero. Correspondence: PMF, CDF, Bounds, Step, Mean, Variance and NormalApprox of the real code are compared with the exact rational model (atol 1e-10; p is transmitted exactly so the model uses the very float the code used).",
+    level_text="Theorems (Lean) now include a mirror of the code's CDF algorithm (Klotz's series pmf(k)*sum of term ratios, on the distribution itself or on the mirrored one) proved equal to the definitional CDF whichever side is summed (C06Klotz.hypCDFalg_eq, hypSeries_mul, hypPMF_mirror, hypCDF_mirror). Theorems (Lean): the rational PMFs sum to 1 (binomial theorem, Vandermonde), CDF is the partial sum (monotone, 0 below / 1 from the top of the support), mean and variance are the first two moments, support is where the PMF is non-zero. Correspondence: PMF, CDF, Bounds, Step, Mean, Variance and NormalApprox of the real code are compared with the exact rational model (atol 1e-10; p is transmitted exactly so the model uses the very float the code used).",
     level_note="Trusted: Lean kernel, harness sampling. BetaInc/Lchoose/math.Pow rounding is absorbed by atol 1e-10 (the property's tolerance). Large N uses short dyadic p so that exact arithmetic stays small.",
     technique="Lean 4 proofs about exact rational PMFs + exact rational differential correspondence",
     rule="bin n p pmf|cdf|misc k; hyp N K D pmf|cdf|misc k. Binomial: N<=60 (quick: N<=8 and multiples of 7, plus 20,21,60; 1/6 of the p grid) on p in {j/100} + {0,1,1e-12,1-1e-12,2^-40,1-2^-40}, every k from -2 to N+2 and sampled half-integers; random N 61..1000 with dyadic p. Hypergeometric: every (N,K,D) with N<=14 (thorough 40, sampled above 25), every k from support-2 to support+2; random N to 1000. non-trivial = N>=2 and 0<p<1 (binomial), non-degenerate support (hypergeometric)",
